@@ -60,6 +60,12 @@ def rule_doc(kind: str, pos: int) -> dict:
         d["detection"]["sel"] = [True]
     elif kind == "failC":
         d["detection"]["condition"] = "sel and missing"
+    elif kind == "failNPH":  # fails while a value BELOW A NOT is converted
+        d["detection"]["flt"] = {"fieldB|expand": "%undefined%"}
+        d["detection"]["condition"] = "sel and not flt"
+    elif kind == "okneg":
+        d["detection"]["flt"] = {"fieldB|startswith": "x"}
+        d["detection"]["condition"] = "sel and not flt"
     return d
 
 
@@ -71,9 +77,18 @@ def corr_doc(pos: int, generate: bool) -> dict:
     }
 
 
-def _convert(docs, collect):
+NOTEQ = dict(convert_not_as_not_eq=True, not_eq_token="!=", not_eq_expression="{field}{backend.not_eq_token}{value}",
+             not_startswith_expression="{field} not_startswith {value}", not_endswith_expression="{field} not_endswith {value}",
+             not_contains_expression="{field} not_contains {value}", not_re_expression="{field}!=/{regex}/",
+             not_cidr_expression="not_cidrmatch('{field}', \"{value}\")")
+
+
+def _convert(docs, collect, noteq=False):
     from sigma.collection import SigmaCollection
-    from sigma.backends.test import TextQueryTestBackend
+    from sigma.backends.test import TextQueryTestBackend as Base
+
+    # a class of its own for every conversion: what a conversion leaves behind on its backend CLASS stays with it
+    TextQueryTestBackend = type("C08Backend", (Base,), dict(NOTEQ) if noteq else {})
     from sigma.processing.pipeline import ProcessingPipeline
     from sigma.exceptions import SigmaError
 
@@ -97,15 +112,16 @@ def _convert(docs, collect):
 def drive_case(case):
     kinds = case["kinds"]
     docs = [rule_doc(k, 0 if case.get("dup") else i + 1) for i, k in enumerate(kinds)]
-    alone = [_convert([d], False) for d in docs]
+    noteq = bool(case.get("noteq"))
+    alone = [_convert([d], False, noteq) for d in docs]
     o = {"id": case["id"], "kinds": kinds, "collect": case["collect"], "corr": case["corr"], "dup": bool(case.get("dup")), "alone": alone}
     if case["corr"] != "none":
         c = corr_doc(len(kinds) + 1, case["corr"] == "gen")
-        o["corr_alone"] = _convert([docs[0], c], False)
+        o["corr_alone"] = _convert([docs[0], c], False, noteq)
         docs = docs + [c]
     else:
         o["corr_alone"] = {"ok": False, "out": [], "exc": "", "sigma": False, "errors": []}
-    o["coll"] = _convert(docs, case["collect"])
+    o["coll"] = _convert(docs, case["collect"], noteq)
     return o
 
 
@@ -119,6 +135,13 @@ def _pretty(o):
 def run(tier: str, seed: int) -> int:
     chk = Check("C08", tier, seed, "model_checking")
     chk.model_check("MC_Conversion", "MC_Conversion.cfg" if tier == "quick" else "MC_Conversion_thorough.cfg")
+    from .. import tlc
+
+    neg = tlc.run_tlc("MC_Conversion", "MC_Conversion_negative.cfg", workers=4, check_ok=False)
+    if neg.invariant_violated is None:
+        raise tlc.MachineryError("negative control: a not-equals context left without restoring the templates not refuted")
+    chk.coverage["negative_control"] = {"cfg": "MC_Conversion_negative.cfg (templates not restored when the conversion raises inside a NOT)",
+                                        "refuted_invariant": neg.invariant_violated}
     cases = chk.generate("Gen_C08")
     obs = drive("harness.props.c08", "drive_case", cases, chunk=40)
     verdicts = chk.judge("Judge_C08", obs)
